@@ -1377,6 +1377,15 @@ func (x *rawRun) atEnd() {
 			x.fail("C04", "window-not-reopened", "window-not-reopened", "the peer still has %d segment(s) that do not fit the advertised window (edge +%d, next segment ends at +%d) although the application has read everything and the world is idle: the window never reopened", len(x.pSegs), x.sEdge-x.cfg.PeerISS-1, x.pSegs[0][0]+x.pSegs[0][1])
 		}
 	}
+	// (C02 liveness) the run is over, the endpoint is healthy, the peer's window is open, no
+	// retransmission timer is armed - yet data or a FIN is still queued or unacknowledged
+	if x.has('c') && x.readErr == "" {
+		st := tcp.VerifDump(x.ep)
+		if st.IsTCP && st.HasSnd && st.State == 4 && st.HardError == "" && st.SndWnd > 0 && !st.TimerEnabled &&
+			(st.SndUna != st.SndNxt || st.SndNxt != st.SndNxtList || st.SndQueueLen > 0) {
+			x.fail("C02", "idle-with-work", "stall", "the run has ended (nothing in flight, no application call, no timer that would send) but the endpoint still has work: sndUna=+%d sndNxt=+%d queued-to=+%d, peer window %d, retransmission timer not armed", st.SndUna-x.sIss, st.SndNxt-x.sIss, st.SndNxtList-x.sIss, st.SndWnd)
+		}
+	}
 	if x.has('s') && bytes.Contains(x.got, []byte("XXXXXXXX")) {
 		x.fail("C04", "beyond-window-delivered", "beyond-window-delivered", "data sent wholly beyond the advertised window reached the application")
 	}
